@@ -2,6 +2,7 @@
 from __future__ import annotations
 
 import ast
+import copy
 import re
 
 from ..cfg import always_raises
@@ -249,10 +250,38 @@ def r3_lookup_chain(ctx: Ctx) -> None:
         if len(rets) == 1 and rets[0].value is not None and len(cont.node.body) == 1:
             vf.node = ast.fix_missing_locations(_ContainsInliner(cont.params()[1], rets[0].value).visit(vf.node))
     if any(isinstance(n, (ast.While, ast.For)) for n in walk_no_nested(vf.node)):
+        # a cursor walk: once the walk has moved on, `self` is no longer the scope being looked at
+        cursors = {unparse(s_.targets[0]) for s_ in vf.node.body if isinstance(s_, ast.Assign) and unparse(s_.value) == "self" and isinstance(s_.targets[0], ast.Name)}
+        for lp_ in [n for n in walk_no_nested(vf.node) if isinstance(n, ast.While)]:
+            if cursors and any(isinstance(x, ast.Name) and x.id in cursors for x in ast.walk(lp_.test)):
+                stale = [r_ for r_ in ast.walk(lp_) if isinstance(r_, ast.Return) and r_.value is not None and any(isinstance(x, ast.Name) and x.id == "self" for x in ast.walk(r_.value))]
+                ctx.check(not stale, "Scope.value_for:reads-the-scope-it-found", "inside the walk the answer comes from the scope the cursor stands on; "
+                          f"`{unparse(stale[0])[:50] if stale else ''}` reads the innermost scope again, where the name is not defined")
         rec = _chain_walk_as_recursion(vf.node, "value_for", sym)
         if rec is None:
             raise AnalysisError("Scope.value_for walks the scope chain with a loop that is not the plain cursor walk; the lookup facts cannot be read off")
         vf.node = rec
+    # one-expression helper methods of Scope used in the tests (`self.defines(symbol)`) read as their expression
+    for hm in ctx.repo.cls(SYMBOLS, "Scope").methods.values():
+        hb = [b for b in hm.node.body if not (isinstance(b, ast.Expr) and isinstance(b.value, ast.Constant))]
+        if hm.name not in ("value_for", "__getitem__", "__contains__", "get_table") and len(hb) == 1 and isinstance(hb[0], ast.Return) and hb[0].value is not None \
+                and len(hm.params()) == 2 and any(isinstance(c, ast.Call) and call_name(c) == f"self.{hm.name}" for c in ast.walk(vf.node)):
+            par_, expr_ = hm.params()[1], hb[0].value
+
+            class _MI(ast.NodeTransformer):
+                def visit_Call(self, node: ast.Call) -> ast.AST:
+                    self.generic_visit(node)
+                    if call_name(node) == f"self.{hm.name}" and len(node.args) == 1 and not node.keywords:  # noqa: B023
+                        arg = node.args[0]
+
+                        class _Sub(ast.NodeTransformer):
+                            def visit_Name(self, n: ast.Name) -> ast.AST:
+                                return copy.deepcopy(arg) if n.id == par_ else n  # noqa: B023
+
+                        return _Sub().visit(copy.deepcopy(expr_))  # noqa: B023
+                    return node
+
+            vf.node = ast.fix_missing_locations(_MI().visit(vf.node))
     vff = return_facts(vf)
     deleg_v, own_v = f"self.parent.value_for({sym})", f"self[{sym}]"
     ctx.check({v for v, _c in vff} == {deleg_v, own_v}, "Scope.value_for:delegation", f"the only results are this scope's own entry and the parent's answer for the same name; found: {show(vff)}")
